@@ -170,4 +170,5 @@ PROPS = {
     "C03": {"run": simple, "level": "exploration"},
     "C04": {"run": c04, "level": "exploration"},
     "C06": {"run": simple, "level": "exploration"},
+    "C07": {"run": simple, "level": "exploration"},
 }
